@@ -29,7 +29,7 @@ ASSUMPTIONS = ['one generator resume counts as one invocation (CPython reports c
 REQUIRE = {'openings': 1500, 'span_openings': 600, 'capture_openings': 300, 'recursive_openings': 60,
            'openings_in_threads': 40, 'exception_exits': 60,
            'withdrawn_mid_flight': 30, 'several_span_processors': 100,
-           'openings_overlapping_same_function_in_another_thread': 40, 'deep_recursion_cases': 10, 'with_a_declining_span_processor': 30, 'snapshot_ahead_of_span': 15}
+           'openings_overlapping_same_function_in_another_thread': 40, 'deep_recursion_cases': 10, 'with_a_declining_span_processor': 30, 'snapshot_ahead_of_span': 15, 'captures_on_indirectly_recursive_functions': 10}
 
 
 def plan(tier, seed):
@@ -83,6 +83,17 @@ def case_deferred(seed, out, spec, wd, idx):
         fc = r.pick(['-1', '-1', '1'])
         common = {'fire_count': fc, 'fire_period': '0'}
         tp_id = 'tp%d' % i
+        mutual = [f for f in funcs if f.startswith(('is_even_', 'is_odd_'))]
+        if i == 0 and mutual and not deep and idx % 2 == 1:
+            # indirect recursion: the same function is running again further down, with another function between
+            # the two invocations, while the outer invocation's deferred capture is pending
+            f = mutual[idx // 2 % len(mutual)]
+            trigs.append(direct_trigger(tp_id, prog.base, None, 'Snapshot',
+                                        dict(common, fire_count='-1', stage='method_capture', frame_type='no_frame'),
+                                        function=f))
+            tps.append((tp_id, 'mcapture', f, '-1'))
+            out.count('captures_on_indirectly_recursive_functions')
+            continue
         if kind == 'mspan':
             f = r.pick(funcs)
             trigs.append(line_trigger(tp_id, prog.base, prog.func_lines[f],
